@@ -12,3 +12,7 @@ import Resvg.Props.C15
 #print axioms Resvg.Props.C15.C15_mask_outside_zero
 #print axioms Resvg.Props.C15.C15_white_mask_identity
 #print axioms Resvg.Props.C15.C15_opacity_monotone
+#print axioms Resvg.Props.C15.C15_tree_embeds_flat
+#print axioms Resvg.Props.C15.C15_nested_clipped_child_counts
+#print axioms Resvg.Props.C15.C15_old_nested_clipped_child_lost
+#print axioms Resvg.Props.C15.C15_nested_full_cover_kept
